@@ -10,6 +10,10 @@ CLAIMED = {
          "Exploration by generated-input search: fixed-seed proptest scenarios (key shapes, polynomial shapes, degree/hiding bounds, aliased query sets, permutations, sponge pre-states) drive the real library through setup/trim/commit/open/check and batch_open/batch_check for the 8 trait schemes, KZG10, multilinear PST and both streaming-KZG provers; any Err/abort/false on an in-domain input is a violation, shrunk to a replay file. It cannot prove absence of failing inputs outside the explored sizes.",
          "Trusted: ark-poly evaluate(), the scenario interpreter's notion of 'in domain' (derived from the trait/docs: bounds from the enforced set, hiding <= supported hiding, one point per point label).",
          "DESIGN.md §4 C01"),
+ "C02": ("property-based testing (proptest): statement perturbations (value / point / commitment) of accepted honest transcripts must be rejected",
+         "Exploration: every accepted honest transcript generated as for C01 is perturbed at a generated position - claimed value + delta, a point z' chosen so that the perturbed statement is false, a commitment to q != p - in single check and batch_check of all 8 trait schemes, KZG10::{check,batch_check}, MultilinearPC::check and streaming verify/verify_multi_points; acceptance (Ok(true)) is a violation. Sensitivity confirmed by re-introducing the Hyrax 'values ignored' defect (caught within the quick tier).",
+         "Perturbed statements are false by construction; for the code-based schemes a moved point is only asserted when the chance acceptance probability computed from the harness's own encoded matrix is <= 2^-40 (toy sizes have a non-negligible soundness error of their own).",
+         "DESIGN.md §4 C02"),
 }
 
 NOT_YET = "check not built yet in this round (planned, see DESIGN.md §4)"
